@@ -9,7 +9,7 @@ import networkx as nx
 from ..cfg import CFG
 from ..effects import Effects
 from ..facts import calls_in, field_writes
-from ..index import FuncInfo, dotted_of, norm, own_nodes
+from ..index import FuncInfo, dotted_of, norm, own_nodes, short
 
 PROPERTY = "C17"
 RULES = {
@@ -21,8 +21,11 @@ RULES = {
     "fields or locals built from them",
     "R3": "declare before resolve: all node outputs of a scope are declared before the first node is deserialized, "
     "scope push/pop are paired, and a redeclared output is rejected before the scope table is written",
+    "R4": "ownership provenance: every value a deserialized graph takes ownership of (the inputs / outputs / "
+    "initializers handed to the Graph constructor) is created in that function or looked up in the graph's OWN scope "
+    "table - never obtained from a scan of the scope stack, which would make a subgraph own a value of an enclosing graph",
 }
-FLOORS = {"R1": 45, "R2": 6, "R3": 5}
+FLOORS = {"R1": 45, "R2": 6, "R3": 5, "R4": 5}
 EXPLANATION = (
     "Effect summaries (file-system primitives through the resolved call graph) for the deserialization entry set and "
     "the cheap tensor accessors; a sub-term analysis of every recursive call edge of the deserializer; dominator "
@@ -239,6 +242,80 @@ def rule_r3(ctx):
               "placeholders for device configurations are never replaced by the model's configurations", how="dominates the exit")
 
 
+def _origins(f: FuncInfo, name: str, depth=0, seen=None) -> list[ast.expr]:
+    """Expressions that may flow into local `name` (its element expressions if it is a list built in f)."""
+    seen = seen if seen is not None else set()
+    if (name, depth > 0) in seen or depth > 4:
+        return []
+    seen.add((name, depth > 0))
+    out: list[ast.expr] = []
+    for n in own_nodes(f.node):
+        if isinstance(n, (ast.Assign, ast.AnnAssign)) and getattr(n, "value", None) is not None:
+            for t in n.targets if isinstance(n, ast.Assign) else [n.target]:
+                if isinstance(t, ast.Name) and t.id == name:
+                    out.append(n.value)
+        elif isinstance(n, ast.NamedExpr) and n.target.id == name:
+            out.append(n.value)
+        elif isinstance(n, ast.Call) and isinstance(n.func, ast.Attribute) and isinstance(n.func.value, ast.Name) and n.func.value.id == name \
+                and n.func.attr in ("append", "extend", "insert", "add") and n.args:
+            out.append(n.args[-1])
+        elif isinstance(n, (ast.For, ast.comprehension)):
+            for x in ast.walk(n.target):
+                if isinstance(x, ast.Name) and x.id == name:
+                    out.append(n.iter)
+    return out
+
+
+def _flows(f: FuncInfo, e: ast.expr, depth=0, seen=None):
+    """All expressions whose value may reach `e` through locals of f (transitively), e included."""
+    seen = seen if seen is not None else set()
+    yield e
+    if depth > 5:
+        return
+    for x in ast.walk(e):
+        if isinstance(x, ast.Name) and isinstance(x.ctx, ast.Load) and x.id not in seen:
+            seen.add(x.id)
+            for o in _origins(f, x.id):
+                yield from _flows(f, o, depth + 1, seen)
+
+
+def rule_r4(ctx):
+    from ..shared import scope_stack_functions
+
+    stacks = scope_stack_functions(ctx.repo)
+    n = 0
+    for f in deser_funcs(ctx):
+        stack = stacks.get(f.key)
+        for c in calls_in(f):
+            k = ctx.typer.ctor_class(f, c)
+            if k is None or k.name != "Graph":
+                continue
+            owned = [("inputs", c.args[0]) if len(c.args) > 0 else None, ("outputs", c.args[1]) if len(c.args) > 1 else None]
+            owned += [(kw.arg, kw.value) for kw in c.keywords if kw.arg in ("inputs", "outputs", "initializers")]
+            for item in owned:
+                if item is None:
+                    continue
+                role, expr = item
+                n += 1
+                bad = None
+                if stack is not None:
+                    for e in _flows(f, expr):
+                        for x in ast.walk(e):
+                            # any use of the stack other than its innermost table stack[-1]
+                            if isinstance(x, ast.Name) and x.id == stack:
+                                par = getattr(x, "_parent", None)
+                                own = isinstance(par, ast.Subscript) and par.value is x and norm(par.slice) == "-1"
+                                if not own:
+                                    bad = e
+                ctx.check("R4", f"{f.local}: {role} of the new Graph come from this scope only", bad is None, f, bad if bad is not None else c,
+                          f"a value handed to the Graph constructor as one of its {role} can come from `{short(norm(bad)) if bad is not None else ''}`, "
+                          "a scan of the whole scope stack: a (malformed) subgraph that names a value of an enclosing graph then takes "
+                          "ownership of that value while its producer stays in the enclosing graph - inconsistent ownership links",
+                          how="def-use closure of the constructor argument over the function's locals; uses of the scope stack other than stack[-1]",
+                          construct=f"{role} <- {short(norm(bad)) if bad is not None else ''}")
+    ctx.require(n >= 5, f"only {n} owned-value arguments of Graph constructors found in the deserializer")
+
+
 def run(ctx):
     ef = ctx._shared.get("effects")
     if ef is None:
@@ -247,3 +324,4 @@ def run(ctx):
     rule_r1(ctx, ef)
     rule_r2(ctx, ef)
     rule_r3(ctx)
+    rule_r4(ctx)
